@@ -151,6 +151,8 @@ func cleanupShared() {
 	if sharedDir != "" {
 		os.RemoveAll(sharedDir)
 		sharedDir = ""
+		procRoot, procTree, procPre = "", nil, nil
+		recipeBase = ""
 	}
 }
 
